@@ -41,7 +41,7 @@ Qed.
 
 Theorem is_valid_ip_meets_spec s b : spec_ip s = Some b -> is_valid_ip s = Some b.
 Proof.
-  unfold spec_ip, is_valid_ip. destruct (is_nil s || memN 0 s); [auto|].
+  unfold spec_ip, is_valid_ip. destruct (is_nil s || memN 0 s || negb (is_ascii_str s)); [auto|].
   destruct (plain_ipv4 s || plain_ipv6 s); [auto|].
   destruct (host_name_shape s) eqn:E; [|discriminate].
   rewrite (host_name_shape_like s E). auto.
@@ -108,6 +108,25 @@ Example spec_ip_examples :
   /\ spec_ip [58;58;49] = Some true                     (* ::1 *)
   /\ spec_ip [108;111;99;97;108;104;111;115;116] = Some false   (* localhost *)
   /\ spec_ip [] = Some false /\ spec_ip [49;0] = Some false.
+Proof. repeat split; reflexivity. Qed.
+
+(* the plain IPv6 class spans the text lengths 2..45: "::", the 39-character pure-hex form, and
+   the uncompressed IPv4-embedded forms of 40..45 characters (seeded change C43_3) *)
+Example spec_ip_ipv6_lengths :
+  spec_ip [58;58] = Some true
+  (* ffff:ffff:ffff:ffff:ffff:ffff:ffff:ffff (39) *)
+  /\ spec_ip [102;102;102;102;58;102;102;102;102;58;102;102;102;102;58;102;102;102;102;58;102;102;102;102;58;102;102;102;102;58;102;102;102;102;58;102;102;102;102] = Some true
+  (* 0000:0000:0000:0000:0000:ffff:10.2.3.4 (38), ...:192.168.100.200 (45) *)
+  /\ spec_ip [48;48;48;48;58;48;48;48;48;58;48;48;48;48;58;48;48;48;48;58;48;48;48;48;58;102;102;102;102;58;49;48;46;50;46;51;46;52] = Some true
+  /\ spec_ip [48;48;48;48;58;48;48;48;48;58;48;48;48;48;58;48;48;48;48;58;48;48;48;48;58;102;102;102;102;58;49;57;50;46;49;54;56;46;49;48;48;46;50;48;48] = Some true
+  /\ List.length [48;48;48;48;58;48;48;48;48;58;48;48;48;48;58;48;48;48;48;58;48;48;48;48;58;102;102;102;102;58;49;57;50;46;49;54;56;46;49;48;48;46;50;48;48] = 45%nat
+  (* ::ffff:255.255.255.255 *)
+  /\ spec_ip [58;58;102;102;102;102;58;50;53;53;46;50;53;53;46;50;53;53;46;50;53;53] = Some true
+  (* 46 characters: the 45-character address followed by z is rejected *)
+  /\ spec_ip [48;48;48;48;58;48;48;48;48;58;48;48;48;48;58;48;48;48;48;58;48;48;48;48;58;102;102;102;102;58;49;57;50;46;49;54;56;46;49;48;48;46;50;48;48;122] = None
+  /\ is_valid_ip [48;48;48;48;58;48;48;48;48;58;48;48;48;48;58;48;48;48;48;58;48;48;48;48;58;102;102;102;102;58;49;57;50;46;49;54;56;46;49;48;48;46;50;48;48;122] = Some false
+  (* non-ASCII digits (fullwidth 1.2.3.4) are rejected *)
+  /\ spec_ip [65297;46;65298;46;65299;46;65300] = Some false.
 Proof. repeat split; reflexivity. Qed.
 
 (* email.utils.parsedate reads the year 0001 as 2001: below year 100 the round trip fails *)
